@@ -13,7 +13,12 @@ RULE = ("kinds: ctor (random rows, arity 1-3, names incl. '' / non-ASCII / the c
         "a missing key, a non-integer dtype, shifted ids), valid_ids (numpy_array_is_0_indexed_integers on random id arrays), "
         "space (an ExperimentSpace built directly from random mapping arrays - repeated names / ids, names that are absent, the control "
         "name, dose 0.0 / -0.0 - and asked all six query methods), space_of_screen (the same queries on from_screen of a constructed screen). "
-        "Non-trivial: at least 2 rows; distinct by canonical description.")
+        "Non-trivial: at least 2 rows; distinct by canonical description.  Big screens (16 quick / 192 thorough, kinds ctor and reuse): 11-40 distinct "
+        "sample names, 11-40 plate names, 8-40 treatment names drawn as random unicode strings (blanks inside and at either end, digit-only names, "
+        "combining marks, astral code points, case pairs; up to 40 characters, thorough 120), up to 200 rows (thorough 400), 2-18 distinct doses: ids reach "
+        "two digits.  In kind reuse the SUPERSET screen is judged by the predicate too, and on the sub-screen (mapping supplied, batchie-made, same control "
+        "name) the sentinel-iff-control clause and the decode direction of the mapping (one id per key, a non-control id names one key, one id per "
+        "sample name) are evaluated as well.")
 THEOREMS = {
     "C01_sentinel_from_source": "the model's sentinel is the CONTROL_SENTINEL_VALUE read from /repo on this run",
     "C01_decode_treatments": "stored treatment ids = mapping lookup of each experiment's (name, dose); that pair is a mapping row",
@@ -75,6 +80,17 @@ THEOREMS = {
         "Screen.__init__ (C12 link); then the translated id run on the rows they leave - the constructor model tied to the source statement "
         "by statement; same hypotheses",
 }
+THEOREMS.update({
+    "C01_mapping_keys_are_row_keys": "decode direction: the mapping a screen builds lists exactly the (name, dose) pairs of its rows, each once",
+    "C01_mapping_decodes": "decode direction: an id of the built mapping is the sentinel exactly on controls, a non-control id belongs to exactly one (name, dose), "
+                           "and looking a (name, dose) up returns the id stored with it",
+    "C01_sample_mapping_decodes": "the built sample mapping lists exactly the rows' sample names, each once, and no two names share an id",
+    "C01_control_iff_supplied": "a screen constructed WITH the treatment mapping batchie built for another screen (same control name; any rows, arity, flags): "
+                                "sentinel iff control name or dose <= 0 on every key of its rows (construction succeeding implies coverage)",
+    "C01_treatment_ids_injective_supplied": "on such a screen equal non-control ids iff equal (name, dose)",
+    "C01_ids_of_superset_supplied": "its ids are the superset screen's ids of the same (name, dose), below the superset's space size, which is its own space size too",
+    "C01_sample_ids_injective_supplied": "a screen constructed with the sample mapping batchie built for another screen: equal sample ids iff equal sample names",
+})
 ASSUMPTIONS = [
     "doses cross the wire as order keys (common.float_key): an order isomorphism on finite doubles identifying -0.0 and 0.0, "
     "as pandas drop_duplicates/merge do; NaN doses are outside the quantifier",
@@ -127,8 +143,10 @@ EXPLANATION = ("Model: Model/Encode.v + Model/Screen.v (mk_screen). Compared exa
                "name / 0.0 is removed before counting, and the order of the calls are read from the source.")
 
 
-def _pred_screen(d, s):
-    """the property's clauses evaluated on a real Screen built from description d"""
+def _pred_screen(d, s, batchie_made=False):
+    """the property's clauses evaluated on a real Screen built from description d; batchie_made: the supplied mappings are the
+    ones batchie itself built for a superset of the data under the same control name (the sentinel clause and the decode
+    direction of the MAPPING then hold as for a built mapping; density of the ids in use does not: the sub-screen may use a part)"""
     from batchie.data import ExperimentSpace
 
     ctrl = d["ctrl"]
@@ -147,7 +165,7 @@ def _pred_screen(d, s):
             if tid not in mp.get(k, []):
                 return "row %d col %d: id %d does not decode to its (name, dose) through the mapping" % (i, j, tid)
             isctrl = (k[0] == ctrl) or (td[i, j] <= 0)
-            if not supplied and (tid == -1) != isctrl:
+            if (not supplied or batchie_made) and (tid == -1) != isctrl:
                 return "row %d col %d: sentinel iff control violated (id %d, name %r, dose %r)" % (i, j, tid, k[0], float(td[i, j]))
             if tid != -1:
                 if key_of_id.setdefault(tid, k) != k:
@@ -168,6 +186,22 @@ def _pred_screen(d, s):
         for k, v in ids_by_key.items():
             if v != -1 and inv.setdefault(v, k) != k:
                 return "two keys share non-control id %d" % v
+    if supplied and batchie_made:
+        # decode direction of a batchie-made mapping: one id per key, sentinel exactly on controls, a non-control id names one key
+        inv = {}
+        for (n_, dk), v in mp.items():
+            if len(v) != 1:
+                return "duplicate key in the batchie-made supplied mapping"
+            if (v[0] == -1) != ((n_ == ctrl) or dk <= 0):
+                return "supplied batchie-made mapping: sentinel iff control violated for (%r, dose key %d): id %d" % (n_, dk, v[0])
+            if v[0] != -1 and inv.setdefault(v[0], (n_, dk)) != (n_, dk):
+                return "supplied batchie-made mapping: two keys share non-control id %d" % v[0]
+        sm_ = {}
+        for n_, i_ in zip(s.sample_mapping[0], s.sample_mapping[1]):
+            if sm_.setdefault(int(i_), str(n_)) != str(n_):
+                return "supplied batchie-made sample mapping: two names share id %d" % int(i_)
+        if len({(str(n_), int(i_)) for n_, i_ in zip(s.sample_names, s.sample_ids)}) != len({str(n_) for n_ in s.sample_names}):
+            return "sample ids of the sub-screen are not one per name"
     for nm, ids, names, mapping, what in [("sample", s.sample_ids, s.sample_names, s.sample_mapping, d.get("smap")),
                                           ("plate", s.plate_ids, s.plate_names, s.plate_mapping, None)]:
         mm = {str(n_): int(i_) for n_, i_ in zip(mapping[0], mapping[1])}
@@ -206,6 +240,13 @@ def gen(rng, tier):
         rows, a = sl.gen_rows(rng, n=rng.choice([2, 3, 4, 6, 8, 10, 12]), ctrl=ctrl)
         sel = [rng.random() < 0.6 for _ in rows]
         yield dict(kind="reuse", rows=rows, arity=a, ctrl=ctrl, obs_given=True, mask_given=True, tmap=None, smap=None, sel=sel)
+    for i in range(16 * N):      # big screens: many samples / plates / treatments, long random unicode names (gap review g1, C01 gaps 5, 6)
+        rows, a, ctrl = _big_case(rng, tier)
+        if i % 2 == 0:
+            yield dict(kind="ctor", rows=rows, arity=a, ctrl=ctrl, obs_given=True, mask_given=True, tmap=None, smap=None)
+        else:
+            yield dict(kind="reuse", rows=rows, arity=a, ctrl=ctrl, obs_given=True, mask_given=True, tmap=None, smap=None,
+                       sel=[rng.random() < 0.5 for _ in rows])
     for _ in range(100 * N):
         ctrl = rng.choice(sl.CTRLS)
         rows, a = sl.gen_rows(rng, n=rng.choice([2, 3, 4, 6, 8]), ctrl=ctrl)
@@ -235,8 +276,46 @@ def gen(rng, tier):
                    tname=rng.choice(sl.NAMES[:6] + [ctrl]), sname=rng.choice(sl.NAMES), sid=rng.choice([-1, 0, 1, 2, 3, 4]))
 
 
+_ALPHABET = list("abcXYZ0192 _-.,;/") + ["é", "ß", "á", "日", "本", "𝛼", "β", "\u0301", "\u00a0", "İ", "ı", "Ω"]
+
+
+def _rand_name(rng, maxlen):
+    """any unicode string without NUL (numpy's str arrays strip trailing NULs): blanks inside / at either end, digits-only,
+    combining marks, astral code points, up to maxlen characters"""
+    r = rng.random()
+    if r < 0.15:
+        return str(rng.choice([0, 1, 2, 9, 10, 11, 19, 20, 100, 101]))      # digit-only names: string order is not numeric order
+    if r < 0.25:
+        return rng.choice(["", " ", "a", "a ", " a", "A", "control", "Control", "control "])
+    return "".join(rng.choice(_ALPHABET) for _ in range(rng.choice([1, 2, 3, 5, 8, 13, maxlen // 2, maxlen])))
+
+
+def _big_case(rng, tier):
+    """a screen with 11-40 distinct sample / plate names (ids >= 10: string-sorted or narrow-dtype renumbering shows), 8-40 distinct
+    treatment names, up to 200 rows (thorough: 400), random unicode names up to 40 (thorough: 120) characters"""
+    big = tier != "quick"
+    maxlen = 120 if big else 40
+
+    def pool(k):
+        out = set()
+        while len(out) < k:
+            out.add(_rand_name(rng, maxlen))
+        return sorted(out, key=lambda _: rng.random())
+    ctrl = rng.choice(sl.CTRLS + ["control ", "10"])
+    samples, plates = pool(rng.randint(11, 40)), pool(rng.randint(11, 40))
+    names = pool(rng.randint(8, 40)) + [ctrl]
+    doses = rng.sample(sl.DOSES, rng.randint(2, 6)) + [rng.choice([0.1, 0.25, 10.0, 1e-9, 7.0]) * rng.randint(1, 50) for _ in range(rng.randint(0, 12))]
+    n = rng.choice([60, 100, 150, 200] + ([300, 400] if big else []))
+    rows, a = sl.gen_rows(rng, n=n, arity=rng.choice([1, 2, 2, 3]), names=names, doses=doses, samples=samples, plates=plates, ctrl=ctrl)
+    return rows, a, ctrl
+
+
 def _features(d):
     f = [d["kind"], "arity%d" % d.get("arity", 0)]
+    if len({r["s"] for r in d.get("rows", [])}) > 10 or len({r["p"] for r in d.get("rows", [])}) > 10:
+        f.append("ids_beyond_9")
+    if any(len(x) > 20 for r in d.get("rows", []) for x in (r["s"], r["p"])):
+        f.append("long_names")
     rows = d.get("rows", [])
     if len(rows) < 2:
         f.append("trivial")
@@ -289,7 +368,7 @@ def run(desc):
         else:
             s1, s2, d2 = r
             impl = sl.canon_screen(s2)
-            pred = _pred_screen(d2, s2)
+            pred = _pred_screen(desc, s1) or _pred_screen(d2, s2, batchie_made=True)
             # verbatim + superset stability: same ids as in the superset screen, same mappings
             idx = [i for i, b in enumerate(desc["sel"]) if b]
             if pred is None and not (np.array_equal(np.asarray(s1.treatment_ids)[idx].reshape(len(idx), desc['arity']), np.asarray(s2.treatment_ids).reshape(len(idx), desc['arity']))
